@@ -157,6 +157,46 @@ def _proxy_ranks(ctx, result):
                     construct="sortable_proxy: raw coefficients in the proxy"))
     if n == 0:
         raise AnalysisError("sortable_proxy: no store into the proxy recognised")
+    # the value returned is a permutation of 0..size-1: ranks by the double-argsort idiom over the flattened proxy
+    m = 0
+    for path in ctx.paths(module, func, max_iter=1):
+        last = path[-1]
+        if last.kind != "return" or last.node.value is None:
+            continue
+        value = strip_tags(last.expand(last.node.value))
+        m += 1
+        core = value
+        if isinstance(core, ast.Call) and isinstance(core.func, ast.Attribute) and core.func.attr in ("reshape", "astype"):
+            core = core.func.value
+        elif isinstance(core, ast.Call) and (ctx.dotted(module, core.func) or "") == "numpy.reshape" and core.args:
+            core = core.args[0]
+
+        def argsort_of(node):
+            if isinstance(node, ast.Call) and (ctx.dotted(module, node.func) or "") == "numpy.argsort" and node.args:
+                return node.args[0]
+            if isinstance(node, ast.Call) and isinstance(node.func, ast.Attribute) and node.func.attr == "argsort":
+                return node.func.value
+            return None
+
+        inner = argsort_of(core)
+        double = inner is not None and argsort_of(inner) is not None
+        dense = any(isinstance(c, ast.Call) and (ctx.dotted(module, c.func) or "") in ("numpy.unique", "scipy.stats.rankdata")
+                    for c in ast.walk(value)) and not double
+        result.ob("sortable_proxy returns a permutation: ranks by argsort(argsort(flat proxy))", double, module.loc(last.orig),
+                  _txt(value)[:60])
+        if double:
+            continue
+        if dense:
+            result.add(Finding(
+                "R-LEAD", module, "sortable_proxy", last.node,
+                "the returned ranks come from numpy.unique(..., return_inverse=True) / rankdata: equal proxy values share "
+                "one rank, so the result is not a permutation of 0..size-1 whenever two elements tie (e.g. several "
+                "identically-zero elements); argmax/argmin/amax/amin and sort rely on distinct ranks",
+                derivation=describe_path(path), construct="sortable_proxy: dense ranks instead of a permutation"))
+        else:
+            raise AnalysisError(f"sortable_proxy: the returned value is not the double-argsort rank idiom: {_txt(value)[:100]}")
+    if m == 0:
+        raise AnalysisError("sortable_proxy: no return path")
 
 
 def run_grad(ctx) -> RuleResult:
